@@ -22,6 +22,12 @@ Theorem c07_seamless_full_refuted : ~ C07_seamless_full.
 Proof. exact c07_seamless_full_refuted_proof. Qed.
 Print Assumptions c07_seamless_full_refuted.
 
+(* files_agree cannot be dropped from c07_seamless_num: a world meeting every other hypothesis whose delivered
+   sequence breaks the discipline (the join is by block number, not by block id) *)
+Theorem c07_files_agree_needed : C07_files_agree_needed.
+Proof. exact c07_files_agree_needed_proof. Qed.
+Print Assumptions c07_files_agree_needed.
+
 (* ---- non-vacuity ---- *)
 
 (* linear chain 2..20, block n declares n-2 final, plus a sibling 116 of block 16; the hub bootstrapped from
